@@ -57,7 +57,7 @@ func c15Campaign(tier string, seed int64, only int, race bool) *campaign {
 		if race {
 			obj.Rounds = 5
 		}
-		c.Job.ReqFor = map[pipe.Variant]*pipe.Request{pipe.VGoO: &obj, pipe.VGoOU: &obj}
+		c.Job.ReqFor = map[pipe.Variant]*pipe.Request{pipe.VGoO: &obj, pipe.VGoOU: &obj, pipe.VGo: &obj, pipe.VGoU: &obj}
 	}
 	cp.Judge = func(c *gcase, o *Outcome) {
 		sub := 0
@@ -84,12 +84,12 @@ func c15Campaign(tier string, seed int64, only int, race bool) *campaign {
 					return
 				}
 			}
-			if !v.IsObject() {
+			if v.IsTS() {
 				for li := 1; li < len(res); li++ {
 					for k := range c.Inputs {
 						o.count("eval:order_comparisons", 1)
 						if !sameResult(res[li][k], base[k], true) {
-							fail(fmt.Sprintf("order %d, ParserInit()/initialize() before each parse", li), k, res[li][k])
+							fail(fmt.Sprintf("order %d, initialize() before each parse", li), k, res[li][k])
 							return
 						}
 					}
@@ -108,7 +108,7 @@ func c15Campaign(tier string, seed int64, only int, race bool) *campaign {
 					lists := res[pos : pos+cnt]
 					pos += cnt
 					switch leg {
-					case "fresh", "reuse":
+					case "fresh", "reuse", "orders":
 						for li, l := range lists {
 							for k := range c.Inputs {
 								o.count("eval:order_comparisons", 1)
@@ -127,7 +127,7 @@ func c15Campaign(tier string, seed int64, only int, race bool) *campaign {
 							o.count("eval:nested_outer_parses", 1)
 							g := lists[0][k]
 							if strings.HasPrefix(g.Verdict, "DIFFERS") || !sameResult(g, base[k], true) {
-								fail("another context's complete parse ran inside GetToken ("+g.Msg+")", k, g)
+								fail("a complete second parse (own context / PushContex-PopContex) ran inside GetToken ("+g.Msg+")", k, g)
 								return
 							}
 						}
